@@ -12,6 +12,7 @@ import (
 	"fmt"
 	"io"
 	"math"
+	"sort"
 	"strconv"
 	"time"
 
@@ -354,7 +355,13 @@ func (c *client) SendBatch(ctx context.Context, batch []hrpc.Call) (
 		} else {
 			sp.AddEvent("retry")
 		}
-		// Set state for next loop iteration
+		// Set state for next loop iteration. The retries were collected
+		// per region client: put them back into the order of the original
+		// batch, so that calls for the same region are presented to the
+		// server in batch order in retry rounds too.
+		sort.Slice(retries, func(i, j int) bool {
+			return rpcToRes[retries[i]] < rpcToRes[retries[j]]
+		})
 		batch = retries
 		retries = retries[:0]
 		allOK = !unretryableErrorSeen
